@@ -130,7 +130,17 @@ def run_traced(world, script, interval):
     st = Tracer()
     px = world.frames["prices"]
     px = px.drop(columns=["USD"]) if "USD" in px.columns else px
+    if any(hook == "pricehole" for _, hook, _ in script):
+        # the price table of an external feed carries a column the account never touches, with holes (a token listed later): the bars are bars all the same
+        px = px.copy()
+        px["LATE"] = [float("nan") if i % 3 != 2 else 1.0 + i / 100 for i in range(len(px.index))]
     markets = [a.market for a in ctx.adapters]
+    full_data = None
+    if any(hook == "rerun-extended" for _, hook, _ in script):
+        # walk-forward: the first run sees the first two rows only, then the history is extended and the SAME actuator runs again
+        full_data = [m.data for m in markets]
+        for m in markets:
+            m.data = m.data.iloc[:2]
     act = make_actuator(markets, assets, st, px, quote, interval=interval)
     state["act"] = act
     ctx.broker = act.broker
@@ -158,7 +168,10 @@ def run_traced(world, script, interval):
     error = None
     try:
         run_quiet(act)
-        if any(hook == "rerun" for _, hook, _ in script):
+        if full_data is not None:
+            for m, d in zip(markets, full_data):
+                m.data = d
+        if any(hook in ("rerun", "rerun-extended") for _, hook, _ in script):
             # the SAME actuator is run once more (walk-forward testing in chunks): the second run is a run like any other, judged by the same specification
             trace.clear()
             outcomes.clear()
@@ -386,6 +399,12 @@ def cases(thorough):
                 # a write in the market registered LAST while the first one is left alone
                 for hook in ("on_bar", "before_bar"):
                     out.append((mix, interval, [(min(1, n_bars - 1), hook, "aave.supply[WETH,part,C]")]))
+            if n_raw <= 60:
+                out.append((mix, interval, [(-3, "pricehole", "-")]))
+                out.append((mix, interval, [(-3, "pricehole", "-"), (min(1, n_bars - 1), "on_bar", good[0])]))
+            if mix in ("uni(q0)", "gmx1", "aave(path)") and interval == "1min":
+                out.append((mix, interval, [(-2, "rerun-extended", "-")]))
+                out.append((mix, interval, [(n_bars - 1, "on_bar", good[0]), (-2, "rerun-extended", "-")]))
             if n_raw <= 60 and interval == "1min":
                 out.append((mix, interval, [(-2, "finalize", good[0]), (-2, "rerun", "-")]))
                 out.append((mix, interval, [(0, "on_bar", good[0]), (-2, "finalize", good[-1]), (-2, "rerun", "-")]))
